@@ -719,13 +719,13 @@ func (s *Server) handleConnectionLoop(conn net.Conn, procHandler *NFSProcedureHa
 
 	connID := fmt.Sprintf("conn-%d", s.nextConnID.Add(1))
 
-	var connRateLimiter *RateLimiter
-	if s.handler != nil {
-		connRateLimiter = s.handler.rateLimiter
-	}
+	// The rate limiter is replaced by policy updates: look it up per request so
+	// that connections opened before an update are judged by the new policy too.
 	defer func() {
-		if connRateLimiter != nil {
-			connRateLimiter.CleanupConnection(connID)
+		if s.handler != nil {
+			if rl := s.handler.currentRateLimiter(); rl != nil {
+				rl.CleanupConnection(connID)
+			}
 		}
 	}()
 
@@ -776,6 +776,10 @@ func (s *Server) handleConnectionLoop(conn net.Conn, procHandler *NFSProcedureHa
 			}
 
 			// Check rate limit
+			var connRateLimiter *RateLimiter
+			if s.handler != nil {
+				connRateLimiter = s.handler.currentRateLimiter()
+			}
 			if connRateLimiter != nil && s.handler != nil && s.handler.policy.Load().EnableRateLimiting {
 				if !connRateLimiter.AllowRequest(authCtx.ClientIP, connID) {
 					reply := &RPCReply{
